@@ -766,7 +766,16 @@ func (c *ClientConn) sendRequest(ctx context.Context, req message.Request) (mess
 	c.mu.Unlock()
 	var err error
 	if _, isPing := req.(*message.Ping); isPing {
-		err = c.transport.Write(req) // keepalive goes on until the transport is closed
+		// keepalive goes on until the transport is closed. A peer that has stopped reading may
+		// block the write itself: the ping timeout covers that too (the write ends when the
+		// keepalive loop closes the transport)
+		written := make(chan error, 1)
+		go func() { written <- c.transport.Write(req) }()
+		select {
+		case err = <-written:
+		case <-ctx.Done():
+			return nil, ctx.Err()
+		}
 	} else {
 		err = c.writeBeforeDisconnect(c.transport, req)
 	}
